@@ -384,6 +384,7 @@ class Interp:
         self._fact_info = {}
         self.mode_domains = {}   # (LexerMode variant, field) -> constants seen at all push sites
         self.probe_enabled = True
+        self.exact_second = True
         self.in_probe = False
         self.probe_loop = None
         self.probe_benign = {}   # scanner fn -> loop locals whose difference is audited as harmless
@@ -1101,6 +1102,9 @@ class Interp:
             return cur
         if a.key() == b.key():
             return [(True, st)]
+        # ordered literal-buffer labels: different labels are different positions
+        if isinstance(a, Term) and isinstance(b, Term) and a.op == b.op == "litpos":
+            return [(False, st)]
         # x == !x is false
         if isinstance(a, Term) and a.op == "not" and a.args and a.args[0].key() == b.key():
             return [(False, st)]
@@ -2001,6 +2005,19 @@ class Interp:
                             new.add(lid2)
                 return new
             changed |= note_changed(back1)
+            if self.exact_second and not self.in_probe and self.loop_cuts_literals(n):
+                # exact second iteration: paths that leave the loop right after one full iteration keep all the
+                # facts of that iteration (its back-edges are covered by the widened generic iteration below)
+                for s in back1:
+                    outs2 = self.ev_block(n["body"], s.clone(), fidx)
+                    for o2 in outs2:
+                        if o2.kind == "brk" and o2.target == lid:
+                            self.emit(o2.st, "loop_exit", n, loop=lid)
+                            res.append(Out("val", o2.val if o2.val is not None else UNIT, o2.st))
+                        elif o2.kind == "val" or (o2.kind == "cont" and o2.target == lid):
+                            pass
+                        else:
+                            res.append(o2)
             # loop-carried Option<mark>: optimistic invariant "Some(mark) => >= 1 char consumed since the mark",
             # verified at every back-edge (first and generic iteration); dropped for a local that breaks it
             marks = self.mark_locals(n)
@@ -2071,6 +2088,21 @@ class Interp:
             if sn is not None and sn[1] == "main" and sn[3] == 0:
                 q = sn[2]
         return q is not None and q in mc and cur in mc and mc[cur] - mc[q] >= 1
+
+    def loop_cuts_literals(self, loop):
+        """Does the loop body cut literal sections (scanners that unquote text)?  Only those get an exact second
+        iteration: the payload decision compares literal-buffer positions that widening cannot keep."""
+        key = ("cuts", id(loop))
+        if key not in self.loop_assigned_cache:
+            hit = False
+            for x, _ in F.walk(loop["body"]):
+                if x.get("k") in ("Call", "MethodCall"):
+                    d = F.norm(x.get("def") or "")
+                    if d.endswith("add_string_literal_from_src") or d.endswith("::add_string_literal"):
+                        hit = True
+                        break
+            self.loop_assigned_cache[key] = hit
+        return self.loop_assigned_cache[key]
 
     def widen(self, s, assigned, n, fidx, moved=None, nogap=()):
         w = s.clone()
